@@ -30,6 +30,7 @@ def plan(tier):
         PG.forced_with_callbacks(1), PG.forced_with_callbacks(2, True), PG.forced_then_graceful(2, True),
         PG.reuse_in_callback(2, 3), PG.reuse_in_callback(2, 2), PG.resize_vs_callback_submit(1, 3),
         PG.map_partial(2, (5,), 3), PG.map_partial(1, (4,), 0),
+        PG.idle_then_submit(1, 0.05, "ok"), PG.idle_then_submit(2, 0.05), PG.warm_then(1, 0.05, "await"),
     ]
     pl = [(p, 1, dict(kinds=("P", "T", "K"))) for p in progs]
     # a worker taken down by any signal: the futures still resolve
